@@ -85,13 +85,22 @@ func numOf(v any) int {
 func init() {
 	regOp(&Op{Name: "runcmd", Impl: func(a map[string]any) any {
 		var sb strings.Builder
-		for k, wv := range a["writes"].([]any) {
+		wl := a["writes"].([]any)
+		bgLast, _ := a["bg_last"].(bool)
+		for k, wv := range wl {
 			w := wv.(map[string]any)
 			fd := "1"
 			if str(w["s"]) == "err" {
 				fd = "2"
 			}
 			// chunk k consists of copies of the letter number k (mod 26): the captured CONTENT is compared
+			if bgLast && k == len(wl)-1 {
+				// the LAST chunk is written by a background child that inherited the streams, 0.45 s
+				// after the command itself has ended: it belongs to the captured output, and the
+				// recorded status is still the command's own (seeded change c14-wait-delay-drops-status)
+				fmt.Fprintf(&sb, "(sleep 0.45; head -c %d /dev/zero | tr '\\000' '%c' >&%s) & ", numOf(w["n"]), 'a'+byte(k%26), fd)
+				continue
+			}
 			fmt.Fprintf(&sb, "head -c %d /dev/zero | tr '\\000' '%c' >&%s; ", numOf(w["n"]), 'a'+byte(k%26), fd)
 		}
 		switch str(a["end"]) {
@@ -234,7 +243,13 @@ func runC14(r *Runner, tier string, rng *Rng) {
 			dir = os.TempDir()
 		}
 		r.St.Count("commands")
-		batch = append(batch, Case{Op: "runcmd", Args: map[string]any{"writes": ws, "end": end, "code": code, "cap": capB, "dir": dir}, Feat: feat + end})
+		args := map[string]any{"writes": ws, "end": end, "code": code, "cap": capB, "dir": dir}
+		if rng.Chance(12) && end == "exit" {
+			args["bg_last"] = true
+			feat += "bg-last,"
+			r.St.Count("background_writer")
+		}
+		batch = append(batch, Case{Op: "runcmd", Args: args, Feat: feat + end})
 		if len(batch) >= 20 {
 			flush()
 		}
